@@ -344,34 +344,36 @@ Section Sample.
                 end
     end.
 
-  Hypothesis emit_time : forall a p, emit a = Some p -> K time p = K timeA a.
+  (* [ok]: the elements whose emission sits at the element's own time *)
+  Context (ok : A -> Prop).
+  Hypothesis emit_time : forall a p, ok a -> emit a = Some p -> K time p = K timeA a.
 
-  Lemma emitted_after a r : sorted timeA (a :: r) -> Forall (fun p => K timeA a < K time p) (emitted r).
+  Lemma emitted_after a r : sorted timeA (a :: r) -> Forall ok r -> Forall (fun p => K timeA a < K time p) (emitted r).
   Proof.
-    intros Hs. destruct (sorted_cons_inv _ _ _ Hs) as (_ & Hf). apply Forall_forall. intros p Hp.
+    intros Hs Hok. destruct (sorted_cons_inv _ _ _ Hs) as (_ & Hf). apply Forall_forall. intros p Hp.
     unfold emitted in Hp. apply in_flat_map in Hp. destruct Hp as (b & Hb & Hp).
     destruct (emit b) as [q|] eqn:E; [|destruct Hp]. destruct Hp as [<-|[]].
-    rewrite (emit_time b q E). rewrite Forall_forall in Hf. exact (Hf b Hb).
+    rewrite Forall_forall in Hok. rewrite (emit_time b q (Hok b Hb) E). rewrite Forall_forall in Hf. exact (Hf b Hb).
   Qed.
 
-  Lemma emitted_chrono sl : sorted timeA sl -> chrono time (emitted sl).
+  Lemma emitted_chrono sl : sorted timeA sl -> Forall ok sl -> chrono time (emitted sl).
   Proof.
-    induction sl as [|a r IH]; intros Hs; [constructor|].
+    induction sl as [|a r IH]; intros Hs Hok; [constructor|]. inversion Hok as [|? ? Ha Hr]; subst.
     destruct (sorted_cons_inv _ _ _ Hs) as (Hs' & _). unfold emitted. cbn [flat_map]. fold (emitted r).
-    destruct (emit a) as [p|] eqn:E; cbn [app]; [|exact (IH Hs')].
-    constructor; [exact (IH Hs')|]. pose proof (emitted_after a r Hs) as H.
-    eapply Forall_impl; [|exact H]. cbv beta. intros q Hq. rewrite (emit_time a p E). exact Hq.
+    destruct (emit a) as [p|] eqn:E; cbn [app]; [|exact (IH Hs' Hr)].
+    constructor; [exact (IH Hs' Hr)|]. pose proof (emitted_after a r Hs Hr) as H.
+    eapply Forall_impl; [|exact H]. cbv beta. intros q Hq. rewrite (emit_time a p Ha E). exact Hq.
   Qed.
 
-  Lemma tlr_emit sl : forall cur, sorted timeA sl -> consistent sl cur ->
+  Lemma tlr_emit sl : forall cur, sorted timeA sl -> Forall ok sl -> consistent sl cur ->
     forall kt, tlr time val (emitted sl) cur kt = tlr timeA full sl cur kt.
   Proof.
-    induction sl as [|a r IH]; intros cur Hs Hc kt; [reflexivity|].
+    induction sl as [|a r IH]; intros cur Hs Hok Hc kt; [reflexivity|]. inversion Hok as [|? ? Ha Hr]; subst.
     destruct (sorted_cons_inv _ _ _ Hs) as (Hs' & _). unfold emitted. cbn [flat_map tlr consistent] in *. fold (emitted r).
     destruct (emit a) as [p|] eqn:E; cbn [app tlr].
-    - destruct Hc as (Hv & Hc). rewrite (emit_time a p E), <- Hv. destruct (K timeA a <=? kt); [|reflexivity].
-      exact (IH _ Hs' Hc kt).
-    - destruct Hc as (Hv & Hc). rewrite Hv. destruct (K timeA a <=? kt) eqn:Ek; [exact (IH _ Hs' Hc kt)|].
-      apply tlr_later. pose proof (emitted_after a r Hs) as H. eapply Forall_impl; [|exact H]. cbv beta. intros q Hq. lia.
+    - destruct Hc as (Hv & Hc). rewrite (emit_time a p Ha E), <- Hv. destruct (K timeA a <=? kt); [|reflexivity].
+      exact (IH _ Hs' Hr Hc kt).
+    - destruct Hc as (Hv & Hc). rewrite Hv. destruct (K timeA a <=? kt) eqn:Ek; [exact (IH _ Hs' Hr Hc kt)|].
+      apply tlr_later. pose proof (emitted_after a r Hs Hr) as H. eapply Forall_impl; [|exact H]. cbv beta. intros q Hq. lia.
   Qed.
 End Sample.
